@@ -594,13 +594,169 @@ static void m3_case(Tape &t)
 	if (stats.want_sample()) stats.sample(what + fmt(" => %s, errors client %d, server %d", done ? "completed" : "failed", c->error(), s->error()));
 }
 
+// ------------------------------------------------------------- M4: resumption of a session that was never established
+// A first connection is cut after j records of the genuine server flight have reached the
+// client (or completes, as the positive control).  The application then reconnects with the
+// documented "try session resumption" call.  The peer of the second connection holds no key:
+// it echoes whatever session ID the client offers and answers with ChangeCipherSpec + Finished
+// computed from a master secret an outsider can know (all zeros on a context that never
+// completed a handshake).  The client must not become ready.  Control: with the master secret
+// of a session that really completed, the same scripted peer IS accepted (so the script is a
+// correct abbreviated handshake and a rejection is the client's decision).
+static Bytes hs_msg(unsigned type, const Bytes &body) { Bytes m = { (uint8_t)type, (uint8_t)(body.size() >> 16), (uint8_t)(body.size() >> 8), (uint8_t)body.size() }; m.insert(m.end(), body.begin(), body.end()); return m; }
+static Bytes rec_of(unsigned type, unsigned ver, const Bytes &payload) { Bytes r = { (uint8_t)type, (uint8_t)(ver >> 8), (uint8_t)ver, (uint8_t)(payload.size() >> 8), (uint8_t)payload.size() }; r.insert(r.end(), payload.begin(), payload.end()); return r; }
+static Bytes transcript_hash(unsigned ver, wt::Prf prf, const Bytes &msgs)
+{
+	Bytes h;
+	unsigned l = 0;
+	if (ver >= 0x0303) { h.resize(64); EVP_Digest(msgs.data(), msgs.size(), h.data(), &l, prf == wt::P_SHA384 ? EVP_sha384() : EVP_sha256(), nullptr); h.resize(l); }
+	else { h.resize(36); EVP_Digest(msgs.data(), msgs.size(), h.data(), &l, EVP_md5(), nullptr); EVP_Digest(msgs.data(), msgs.size(), h.data() + 16, &l, EVP_sha1(), nullptr); }
+	return h;
+}
+static void m4_case(Tape &t)
+{
+	static const uint16_t SUITES[] = { 0x009C, 0xC02F, 0x002F, 0xCCA8, 0x003C, 0xC013 };
+	uint16_t suite = SUITES[t.u8() % 6];
+	const wt::SuiteInfo *si = wt::suite_by_id(suite);
+	unsigned ver = si->tls12_only ? 0x0303 : 0x0301 + t.u8() % 3;
+	bool control = t.u8() % 4 == 0;      // first connection completes: the scripted peer uses the real master secret
+	bool earlier = !control && t.u8() % 3 == 0;   // a completed session precedes the aborted one
+	Profile cp, sp;
+	cp.suites = { suite }; sp.suites = { suite };
+	cp.vmin = cp.vmax = sp.vmin = sp.vmax = ver;
+	sp.key = keys_for(si)[0];
+	cp.resume = true;
+	for (int i = 0; i < 32; i++) { cp.entropy[i] = (uint8_t)(suite + i * 3); sp.entropy[i] = (uint8_t)(suite * 5 + i); }
+	BearClient c(cp);
+	BearServer s(sp);
+	std::string what = fmt("%s TLS%s: ", si->name, ver_name(ver));
+	auto full_session = [&]() {
+		VF_CHECK(c.reset() && s.reset(), "harness: reset");
+		Session S(&c, &s);
+		S.script[0].push_back(Item{ IT_WRITE, 3, true });
+		S.script[0].push_back(Item{ IT_WAIT_PEER_IDLE, 0, true });
+		S.script[0].push_back(Item{ IT_CLOSE, 0, true });
+		S.run(400000);
+		VF_CHECK(S.established && S.recvd[0] == 3, "harness: complete session failed (errors %d/%d)", c.error(), s.error());
+	};
+	uint8_t attacker_master[48] = { 0 };
+	if (control || earlier) full_session();
+	if (control) {
+		br_ssl_session_parameters pp;
+		br_ssl_engine_get_session_parameters(c.eng, &pp);
+		memcpy(attacker_master, pp.master_secret, 48);
+		what += "control: first connection completed, scripted peer resumes it with the genuine master secret";
+	} else {
+		// the aborted connection: cut after j server records have been delivered to the client
+		VF_CHECK(c.reset() && s.reset(), "harness: reset");
+		Session S(&c, &s);
+		unsigned j = 1 + t.u8() % 4;   // number of messages of the server's first flight that get through
+		unsigned seen = 0;
+		S.mitm = [&](int d, const Record &r, std::vector<Bytes> &out) {
+			if (d == 0) { out.push_back(r.raw()); return; }
+			if (seen >= j || r.type != 22 || r.epoch != 0) return;
+			Bytes keep;
+			size_t o = 0;
+			while (o + 4 <= r.payload.size() && seen < j) {
+				size_t ml = ((size_t)r.payload[o + 1] << 16) | ((size_t)r.payload[o + 2] << 8) | r.payload[o + 3];
+				if (o + 4 + ml > r.payload.size()) break;
+				keep.insert(keep.end(), r.payload.begin() + o, r.payload.begin() + o + 4 + ml);
+				o += 4 + ml;
+				seen++;
+			}
+			if (!keep.empty()) out.push_back(rec_of(22, r.version, keep));
+			if (o < r.payload.size()) seen = j;   // the rest of the flight is lost
+		};
+		S.run(400000);
+		VF_CHECK(!S.ever_ready[0], "harness: cut connection completed");
+		what += fmt("first connection cut after %u message(s) of the server flight%s; reconnect with resume_session=1 to a peer without any key, which uses an all-zero master secret", seen, earlier ? " (a completed session precedes it)" : "");
+		if (earlier) {
+			// the attacker of this scenario does not know the older master secret; an all-zero guess must fail
+		}
+	}
+	// second connection: scripted keyless peer
+	VF_CHECK(c.reset(), "harness: client reset");
+	Bytes ch;
+	{
+		const uint8_t *p;
+		size_t n;
+		Framer fr;
+		std::vector<Record> recs;
+		for (int g = 0; g < 50 && recs.empty(); g++) if ((n = c.wire_out_peek(&p)) > 0) { fr.feed(p, n, recs); c.wire_out_ack(n); }
+		VF_CHECK(!recs.empty() && recs[0].type == 22 && recs[0].payload.size() > 39, "harness: no ClientHello");
+		ch = recs[0].payload;
+	}
+	size_t idlen = ch[4 + 2 + 32];
+	Bytes offered(ch.begin() + 39, ch.begin() + 39 + idlen);
+	Bytes crand(ch.begin() + 6, ch.begin() + 38);
+	if (idlen == 0) {
+		// nothing to echo: the client insists on a full handshake, which a keyless peer cannot complete
+		VF_CHECK(!control, "%s: the client did not offer the session it had just completed", what.c_str());
+		stats.cls("M4/no-session-offered");
+		stats.eval(what + fmt("/%04x/%04x", suite, ver));
+		return;
+	}
+	Bytes srand(32, 0x5C);
+	Bytes shb = { (uint8_t)(ver >> 8), (uint8_t)ver };
+	shb.insert(shb.end(), srand.begin(), srand.end());
+	shb.push_back((uint8_t)idlen);
+	shb.insert(shb.end(), offered.begin(), offered.end());
+	shb.push_back((uint8_t)(suite >> 8)); shb.push_back((uint8_t)suite);
+	shb.push_back(0);
+	Bytes sh = hs_msg(2, shb);
+	Bytes transcript = ch;
+	transcript.insert(transcript.end(), sh.begin(), sh.end());
+	wt::KeyMat km;
+	km.version = (uint16_t)ver; km.suite = suite;
+	memcpy(km.master, attacker_master, 48);
+	memcpy(km.cr, crand.data(), 32); memcpy(km.sr, srand.data(), 32);
+	wt::RecCodec out_codec;
+	VF_CHECK(out_codec.init(km, false), "harness: codec");
+	Bytes th = transcript_hash(ver, si->prf, transcript);
+	Bytes vd(12);
+	VF_CHECK(wt::tls_prf(ver, si->prf, km.master, 48, "server finished", th.data(), th.size(), vd.data(), 12), "harness: prf");
+	Bytes fin = hs_msg(20, vd);
+	Bytes wire = rec_of(22, ver, sh);
+	Bytes ccs = rec_of(20, ver, Bytes{ 1 });
+	wire.insert(wire.end(), ccs.begin(), ccs.end());
+	Bytes finrec = rec_of(22, ver, out_codec.encrypt(22, ver, fin.data(), fin.size()));
+	wire.insert(wire.end(), finrec.begin(), finrec.end());
+	const char *hello = "hello from nobody";
+	Bytes apprec = rec_of(23, ver, out_codec.encrypt(23, ver, (const uint8_t *)hello, strlen(hello)));
+	wire.insert(wire.end(), apprec.begin(), apprec.end());
+	size_t off = 0, delivered = 0;
+	bool ready = false;
+	for (int g = 0; g < 100000; g++) {
+		bool prog = false;
+		const uint8_t *p;
+		size_t n;
+		while ((n = c.app_in_peek(&p)) > 0) { delivered += n; c.app_in_ack(n); prog = true; }
+		if ((n = c.wire_out_peek(&p)) > 0) { c.wire_out_ack(n); prog = true; }
+		if (c.ready()) ready = true;
+		size_t room = c.wire_in_room();
+		if (room && off < wire.size()) { size_t k = std::min(room, wire.size() - off); c.wire_in(wire.data() + off, k); off += k; prog = true; }
+		if (c.closed() || !prog) break;
+	}
+	if (control) {
+		VF_CHECK(ready && delivered == strlen(hello), "harness: the scripted abbreviated handshake is not accepted even with the genuine master secret (client error %d): the script is wrong", c.error());
+		stats.cls("M4/control");
+		stats.eval(what + fmt("/%04x/%04x", suite, ver));
+		return;
+	}
+	VF_CHECK(!ready && delivered == 0, "%s: the client completed an abbreviated handshake (%zu application bytes delivered) although no certificate was ever validated for that session", what.c_str(), delivered);
+	VF_CHECK(c.closed() && c.error() != 0, "%s: the client did not fail (error %d)", what.c_str(), c.error());
+	stats.cls("M4/refused");
+	stats.eval(what + fmt("/%04x/%04x", suite, ver));
+	if (stats.want_sample()) stats.sample(what + fmt(" => client error %d", c.error()));
+}
+
 // ------------------------------------------------------------- entry points
 void target_run(Tape &t)
 {
 	unsigned m = t.u8();
 	if (m == 0xF0) { unsigned k = t.u8() % NKINDS; int dir = t.u8() & 1; size_t rec = t.u8(); size_t off = t.u16(); uint8_t mask = t.u8(); unsigned cm = t.u8(); m0_case(k, dir, rec, off, mask, cm); return; }
 	if (m == 0xF1) { unsigned k = t.u8() % NKINDS; int dir = t.u8() & 1; unsigned edit = t.u8() % E_NEDITS; size_t mi = t.u8(); unsigned aux = t.u8(); unsigned cm = t.u8(); m1_case(k, dir, edit, mi, aux, cm); return; }
-	switch (m % 8) {
+	switch (m % 9) {
 	case 0: case 1: {
 		unsigned k = t.u8() % NKINDS;
 		int dir = t.u8() & 1;
@@ -618,6 +774,7 @@ void target_run(Tape &t)
 	case 2: case 3: { unsigned k = t.u8() % NKINDS; int dir = t.u8() & 1; unsigned edit = 1 + t.u8() % (E_NEDITS - 1); m1_case(k, dir, edit, t.u8(), t.u8(), t.u8()); break; }
 	case 4: m2_suite_case(t); break;
 	case 5: m2_version_case(t); break;
+	case 6: m4_case(t); break;
 	default: m3_case(t); break;
 	}
 }
